@@ -6167,36 +6167,42 @@ impl QueryRouter {
         if let Some(from_pos) = upper.find(" FROM ") {
             let rest_after_from = &command[from_pos + 6..];
 
-            // Find table name (until WHERE, LIMIT, or end)
+            // Find table name (until WHERE, LIMIT, OFFSET, or end)
             let upper_rest = rest_after_from.to_ascii_uppercase();
+            let page_start = |text: &str| match (text.find(" LIMIT "), text.find(" OFFSET ")) {
+                (Some(l), Some(o)) => Some(l.min(o)),
+                (l, o) => l.or(o),
+            };
+            let page_pos = page_start(&upper_rest);
             let end_pos = upper_rest
                 .find(" WHERE ")
-                .or_else(|| upper_rest.find(" LIMIT "))
+                .or(page_pos)
                 .unwrap_or(rest_after_from.len());
             let table = rest_after_from[..end_pos].trim();
 
             // Parse WHERE condition
             let condition = if let Some(where_pos) = upper_rest.find(" WHERE ") {
                 let after_where = &rest_after_from[where_pos + 7..];
-                let limit_pos = after_where.to_ascii_uppercase().find(" LIMIT ");
+                let limit_pos = page_start(&after_where.to_ascii_uppercase());
                 let cond_str = limit_pos.map_or(after_where, |pos| &after_where[..pos]);
                 self.parse_condition(cond_str.trim())?
             } else {
                 Condition::True
             };
 
-            // Parse LIMIT
-            let limit = upper_rest.find(" LIMIT ").and_then(|limit_pos| {
-                rest_after_from[limit_pos + 7..]
-                    .trim()
-                    .parse::<usize>()
-                    .ok()
-            });
+            // Parse `LIMIT n [OFFSET m]` / `OFFSET m`; a clause that is not understood is an
+            // error, never silently dropped.
+            let (limit, offset) = match page_pos {
+                Some(pos) => Self::parse_limit_offset(&rest_after_from[pos..])?,
+                None => (None, 0),
+            };
 
-            let mut rows = self.relational.select(table, condition)?;
-            if let Some(n) = limit {
-                rows.truncate(n);
-            }
+            let rows = self.relational.select(table, condition)?;
+            let rows = rows
+                .into_iter()
+                .skip(offset)
+                .take(limit.unwrap_or(usize::MAX))
+                .collect();
             return Ok(QueryResult::Rows(rows));
         }
 
@@ -6217,6 +6223,22 @@ impl QueryRouter {
 
         let rows = self.relational.select(table, condition)?;
         Ok(QueryResult::Rows(rows))
+    }
+
+    /// `LIMIT n`, `LIMIT n OFFSET m` or `OFFSET m` of the legacy SELECT syntax.
+    fn parse_limit_offset(clause: &str) -> Result<(Option<usize>, usize)> {
+        let bad = || RouterError::ParseError(format!("invalid LIMIT/OFFSET clause: {}", clause.trim()));
+        let number = |text: &str| text.parse::<usize>().map_err(|_| bad());
+        let tokens: Vec<&str> = clause.split_whitespace().collect();
+        let keyword = |i: usize, kw: &str| tokens.get(i).is_some_and(|t| t.eq_ignore_ascii_case(kw));
+        match tokens.len() {
+            2 if keyword(0, "LIMIT") => Ok((Some(number(tokens[1])?), 0)),
+            2 if keyword(0, "OFFSET") => Ok((None, number(tokens[1])?)),
+            4 if keyword(0, "LIMIT") && keyword(2, "OFFSET") => {
+                Ok((Some(number(tokens[1])?), number(tokens[3])?))
+            },
+            _ => Err(bad()),
+        }
     }
 
     fn execute_insert(&self, command: &str) -> Result<QueryResult> {
